@@ -472,8 +472,10 @@ def hCkBulk (args : List String) (real : Option String) : Option Out := do
   if n = 0 || n > 1024 then none
   let vbs := List.range n
   let dirty := vbs.filter fun vb => skip == 0 || vb % skip != skip - 1
+  -- `fail=VB`: that vBucket's first xattr write is refused; `fail=VBv`: its document vanishes between creation and the repeated
+  -- write (second xattr write answered KEY_ENOENT) - either way the server did not confirm that vBucket's checkpoint
   let fail : Option Vb ← if failS == "-" then some none else do
-    let v ← failS.toNat?
+    let v ← (if failS.endsWith "v" then (failS.dropEnd 1).toString else failS).toNat?
     if dirty.contains v then some (some v) else none
   let pre : AMap Doc := if preM == 0 then [] else (vbs.filter (· % preM == 0)).map fun vb => (vb, bulkDoc (salt + 1) vb)
   let state := vbs.map fun vb => (vb, bulkDoc salt vb)
